@@ -737,6 +737,52 @@ func clientParallelFetchRun(e *concEnv, n int) string {
 	return "parallel-fetch-complete"
 }
 
+// readers run concurrently BY DESIGN (read lock): Count / Any with filters that are not Predicates work on a slice of
+// their own - concurrent readers never share a scratch buffer, every count is right every time and nothing panics
+func concurrentCountRun(e *concEnv, iters int) string {
+	b, err := bundle.ParseBundle(concLoc, e.hdr)
+	if err != nil {
+		return "harness-error"
+	}
+	want := map[string]int{}
+	filters := map[string]func() bundle.Filter{
+		"here":      func() bundle.Filter { return bundle.LocationFilter(concLoc) },
+		"elsewhere": func() bundle.Filter { return bundle.LocationFilter("https://nowhere.example") },
+		"default":   func() bundle.Filter { return bundle.DefaultFilter(bundle.LocationFilter(concLoc).Predicate()) },
+	}
+	names := []string{"here", "elsewhere", "default"}
+	for _, n := range names {
+		want[n] = b.Count(filters[n]())
+	}
+	var wg sync.WaitGroup
+	var wrong, panicked int32
+	for g := 0; g < 6; g++ {
+		wg.Add(1)
+		go func(g int) {
+			defer wg.Done()
+			defer func() {
+				if recover() != nil {
+					atomic.StoreInt32(&panicked, 1)
+				}
+			}()
+			n := names[g%len(names)]
+			for i := 0; i < iters; i++ {
+				if b.Count(filters[n]()) != want[n] || b.Any(filters[n]()) != (want[n] > 0) {
+					atomic.StoreInt32(&wrong, 1)
+				}
+			}
+		}(g)
+	}
+	wg.Wait()
+	switch {
+	case atomic.LoadInt32(&panicked) != 0:
+		return "panic(concurrent Count/Any with non-Predicate filters)"
+	case atomic.LoadInt32(&wrong) != 0:
+		return "wrong-answer(a Count/Any running next to another one returned a wrong result)"
+	}
+	return "concurrent-counts-right"
+}
+
 func famConc(r *Rng, o *Out, tier string) {
 	e := newConcEnv()
 	g, iters, wd := 4, 150, 4*time.Second
@@ -765,6 +811,7 @@ func famConc(r *Rng, o *Out, tier string) {
 	o.emit("(const returned-values-stable)", returnedValuesRun(e))
 	o.emit("(const bundles-sharing-a-cache-stay-apart)", sharedCacheRun(e))
 	o.emit("(const parallel-fetch-complete)", clientParallelFetchRun(e, 8))
+	o.emit("(const concurrent-counts-right)", concurrentCountRun(e, 40*iters))
 	hangs := 0
 	for _, a := range all {
 		for _, w := range writers {
